@@ -11,7 +11,7 @@ every filter dimension and of the *_since helpers is also given as an aware date
 offsets, minutes: quick +02:00 -05:00 +05:30; thorough also +00:00-as-non-singleton, +14:00 and -12:00 which move the
 calendar date), windows (after, before) over every ordered value pair x every ordered pair of distinct zones, and one
 tzinfo subclass that is not datetime.timezone; item timestamps are also served spelled with a numeric offset instead of
-'Z' (SPELL_SCHEMES: which offset each item gets), with and without fractional seconds. The reference compares instants.
+'Z' (extras tzspell = spelling scheme: which offset of SPELL_ZONES each item gets), with and without fractional seconds. The reference compares instants.
 A date value in a case is either `ms` (offset from T0 in ms, bound given in UTC) or `[ms, zone_minutes]` / `[ms, zone_minutes,
 "sub"]` (same instant, bound expressed in that zone / through the tzinfo subclass). Naive bounds are outside the space.
 """
